@@ -78,6 +78,18 @@ def gen(c):
                 for p in sorted({k, k + 1, min(40, k + 6), 40}):
                     add("f64", f64bits(v if rnd.random() < 0.7 else -v), fmt, p)
             add("f32", f32bits(v), rnd.choice((1, 2)), 40)
+    # tiny values with FEW mantissa bits (subnormals, m * 2^-k): the formatter drops low words of its big integer while it multiplies by
+    # powers of five, and for these values too early (the last digit came out one too low at precisions 15..18 and 35..37)
+    for bits in [0x3626850000000000, 0x03a8182000000000, 0x12, 0x0197800000000000, 0x1, 0x3, 0x25, 0x7ff, 0x10000000000000]:
+        for p in (15, 16, 17, 18, 35, 36, 37):
+            add("f64", bits, 0, p)
+    for _ in range(1500 if c.thorough else 150):
+        e = rnd.randint(1, 0x3e0)                      # exponent field: values below about 1e-10
+        m = rnd.getrandbits(rnd.randint(1, 12)) << rnd.randint(40, 51) if rnd.random() < 0.7 else 0
+        b = (e << 52) | (m & ((1 << 52) - 1)) if rnd.random() < 0.8 else rnd.getrandbits(rnd.randint(1, 20))
+        add("f64", b, 0, rnd.choice((15, 16, 17, 18, 35, 36, 37)))
+    for b in (0x67e0, 0x25, 0x1, 0x7fffff):
+        add("f32", b, 0, 18)
     # near ties at the cut digit: p significant digits (the last one even or odd), then 5, then nothing / zeros and a 1 / 4999..., at magnitudes
     # where the integer part has fewer, as many and many more digits than the precision (the value is whatever double is nearest)
     for p in range(1, 18):
